@@ -17,7 +17,9 @@ Print Assumptions C02_step_inv.
 (* reads return the most recent acknowledged write *)
 Theorem C02_read_after_write : forall c s b k body m s1 vid,
   step c s (OPut b k body m) = (s1, RPut vid) ->
-  exists v sv, snd (step c s1 (OGet b k None)) = RObj v sv /\ vd_body v = body /\ vd_meta v = m.
+  exists v sv, snd (step c s1 (OGet b k None)) = RObj v sv /\ vd_body v = body /\
+               vd_meta v = carry_meta (fst (ensure_bucket c s b)) b k m /\
+               (forall kv, In kv m -> In kv (vd_meta v)).
 Proof. exact law_get_after_put. Qed.
 Print Assumptions C02_read_after_write.
 
